@@ -7848,8 +7848,9 @@ class SFTPServer:
             mapped_newdir = self.map_path(newdir)
             abspath2 = os.path.join(mapped_newdir, oldpath)
 
-            # Make sure the symlink doesn't point outside the chroot
-            if os.path.realpath(abspath1) != os.path.realpath(abspath2):
+            # Make sure the symlink doesn't point outside the chroot,
+            # without following the target outside of it to find out
+            if os.path.normpath(abspath1) != os.path.normpath(abspath2):
                 oldpath = os.path.relpath(abspath1, start=mapped_newdir)
 
         newpath = self.map_path(newpath)
